@@ -1179,7 +1179,29 @@ func (th *Thread) slice(instr *ssa.Slice, x, lo, hi, max Value) Value {
 		if full(lo, true) && full(hi, false) && full(max, false) {
 			return ob
 		}
-		m.unsupported("partial slice of an abstract byte slice")
+		// a part of an abstract byte slice: a new abstract chunk identified by its source and bounds
+		ts := m.ts
+		total := th.strLenTerm(ob.S)
+		l, h := ts.Const(64, 0), total
+		if lo != nil {
+			l = lo.(*Term)
+		}
+		if hi != nil {
+			h = hi.(*Term)
+		}
+		okc := ts.And(ts.And(ts.Cmp(OpSLe, ts.Const(64, 0), l), ts.Cmp(OpSLe, l, h)), ts.Cmp(OpSLe, h, total))
+		if !m.decide(okc) {
+			th.rtPanic("slice bounds out of range (abstract byte slice)")
+		}
+		ln := ts.Bin(OpSub, h, l)
+		id := "sub("
+		if ob.S.Opaque != nil {
+			for _, sg := range ob.S.Opaque.Segs {
+				id += sg.ID + "/"
+			}
+		}
+		id += fmt.Sprintf(")[n%d:n%d]", l.id, h.id)
+		return OBytes{Str{Opaque: &OpaqueStr{Len: ln, Segs: []Seg{{ID: id, Len: ln}}}}}
 	}
 	m.unsupported(fmt.Sprintf("slice of %T", x))
 	return nil
